@@ -45,7 +45,7 @@ ASSUMPTIONS = [
     "use_original_entries=False; RELION 5 not covered",
     "STAR precision: 6 decimals => coordinates within 0.5e-6 (+1e-9), rotation matrices within 1e-6; in memory 1e-9 / 1e-6",
 ]
-BUDGET_S = {"quick": 400, "thorough": 2400}
+BUDGET_S = {"quick": 400, "thorough": 3000}
 
 TOL_POS_MEM = 1e-9
 TOL_ROT_MEM = 1e-6  # scipy treats |middle angle| < 1e-7 rad as gimbal lock: exact code is off by up to 1e-7
@@ -486,7 +486,13 @@ def judge_import(obs, site, pfx, mdf, exp, tol_pos, tol_rot, split=True):
     obs.check(bool((g["tomo_id"] == exp["tomo"]).all()), site, pfx + "-tomo", lambda: f"tomo_id {g['tomo_id'][:4].tolist()} expected {exp['tomo'][:4].tolist()}", cls=exp.get("name_cls", ""))
     obs.check(bool((g["class"] == exp["cls"]).all()), site, pfx + "-class", lambda: f"class {g['class'][:4].tolist()} expected {exp['cls'][:4].tolist()}")
     obs.check(bool((g["geom3"] == exp["sub"]).all()), site, pfx + "-geom3", lambda: f"geom3 {g['geom3'][:4].tolist()} expected subtomogram numbers {exp['sub'][:4].tolist()}", cls=exp.get("name_cls", ""))
-    if exp.get("half") is not None:
+    if exp.get("half") is not None and exp.get("half_cls") == "half-single-value":
+        # A file whose rlnRandomSubset column holds a single value carries no half-set *partition*; cryoCAT then keeps the
+        # numbers found in the particle names (cryomotl.py parse_subtomo_id: "nunique() == 2").  The statement's
+        # "half-set 1/2 corresponds to odd/even" cannot be demanded of such a file without saying which of the two
+        # conflicting sources (name number vs. subset) wins, so this class is executed but not judged.
+        obs.fire(pfx + "-halfset-single-value-not-judged")
+    elif exp.get("half") is not None:
         par = np.where(g["subtomo_id"] % 2 == 1, 1.0, 2.0)
         ok = par == exp["half"]
         obs.check(ok.all(), site, pfx + "-halfset-parity",
